@@ -71,7 +71,9 @@ def replay_vectors(ctx, vectors, pmod):
             for n in v["W"]:
                 W[n // nth, n % nth] = True
             ctx.case(("v", json.dumps([v["E"], v["L"], v["A"], v["wd"], v["cutn"], v["req"]])), len(set(v["E"])) > 1)
-            if fm is None or not np.array_equal(fm, W) or v["tie"]:
+            # wsfrac = wscut exactly: floating point decides only when the cutoff is not exactly representable; with a cutoff of
+            # 0 or 1 the fraction 0/x or x/x is exact and the strict comparison of the code is decidable
+            if fm is None or not np.array_equal(fm, W) or (v["tie"] and v["cutd"] == 10000):
                 skipped += 1
                 continue
             stub.L = v["L"]
